@@ -65,7 +65,9 @@ def checkPair (c : Cert L R Q) (n : Node R Q) (x : L) (r' : R) (idx : Nat) : Boo
   !(decide (A.laStep x r' = n.rho)) ||
     (let t := A.trans n.s x r'
      (n.s.isNone || decide (t.2 = A.qout n.q x r')) &&
-       decide (c.get idx = some ⟨some t.1, A.qstep n.q x, r'⟩))
+       decide (c.get idx = some ⟨some t.1, A.qstep n.q x, r'⟩) &&
+       -- C11: after a reported boundary the state is the one a fresh start on the suffix reaches
+       (!(A.isB t.2) || decide ((A.trans none x r').1 = t.1)))
 
 def checkRow (c : Cert L R Q) (n : Node R Q) : List (L × R) → List Nat → Bool
   | [], _ => true
@@ -92,7 +94,8 @@ theorem checkRow_sound (c : Cert L R Q) (n : Node R Q) :
     ∀ (ps : List (L × R)) (is : List Nat), checkRow A c n ps is = true →
       ∀ p ∈ ps, A.laStep p.1 p.2 = n.rho →
         (n.s.isNone = true ∨ (A.trans n.s p.1 p.2).2 = A.qout n.q p.1 p.2) ∧
-        (⟨some (A.trans n.s p.1 p.2).1, A.qstep n.q p.1, p.2⟩ : Node R Q) ∈ c.nodes := by
+        (⟨some (A.trans n.s p.1 p.2).1, A.qstep n.q p.1, p.2⟩ : Node R Q) ∈ c.nodes ∧
+        (A.isB (A.trans n.s p.1 p.2).2 = true → (A.trans none p.1 p.2).1 = (A.trans n.s p.1 p.2).1) := by
   intro ps
   induction ps with
   | nil => intro _ _ p hp; cases hp
@@ -105,8 +108,12 @@ theorem checkRow_sound (c : Cert L R Q) (n : Node R Q) :
       rcases List.mem_cons.mp hp with rfl | hp'
       · have h1 := h.1
         simp only [checkPair, hla, decide_true, Bool.not_true, Bool.false_or, Bool.and_eq_true,
-          Bool.or_eq_true, decide_eq_true_eq] at h1
-        exact ⟨h1.1, c.get_mem i _ h1.2⟩
+          Bool.or_eq_true, decide_eq_true_eq, Bool.not_eq_true'] at h1
+        refine ⟨h1.1.1, c.get_mem i _ h1.1.2, ?_⟩
+        intro hb
+        rcases h1.2 with h | h
+        · rw [hb] at h; cases h
+        · exact h
       · exact ih is h.2 p hp' hla
 
 /-- the promise of a letter string: a backward fold -/
@@ -154,7 +161,8 @@ theorem node_row (c : Cert L R Q) (n : Node R Q) (hn : n ∈ c.nodes) :
 theorem step_closed (c : Cert L R Q) (hv : c.Valid A) (n : Node R Q) (hn : n ∈ c.nodes)
     (x : L) (r' : R) (hx : x ∈ c.letters) (hr : r' ∈ c.rhos) (hla : A.laStep x r' = n.rho) :
     (n.s.isNone = true ∨ (A.trans n.s x r').2 = A.qout n.q x r') ∧
-    (⟨some (A.trans n.s x r').1, A.qstep n.q x, r'⟩ : Node R Q) ∈ c.nodes := by
+    (⟨some (A.trans n.s x r').1, A.qstep n.q x, r'⟩ : Node R Q) ∈ c.nodes ∧
+    (A.isB (A.trans n.s x r').2 = true → (A.trans none x r').1 = (A.trans n.s x r').1) := by
   obtain ⟨ch, hch, row, hrow, rfl⟩ := node_row c n hn
   have h1 := hv.chunks ch hch
   simp only [checkChunk, List.all_eq_true] at h1
@@ -175,7 +183,7 @@ theorem run_agree (c : Cert L R Q) (hv : c.Valid A) :
     have hrest : ∀ y ∈ rest, y ∈ c.letters := fun y hy => hw y (List.mem_cons_of_mem _ hy)
     have hr' : la A rest ∈ c.rhos := la_mem A c hv rest hrest
     have hla : A.laStep x (la A rest) = n.rho := hrho.symm
-    obtain ⟨hagree, hsucc⟩ := step_closed A c hv n hn x (la A rest) hx hr' hla
+    obtain ⟨hagree, hsucc, _⟩ := step_closed A c hv n hn x (la A rest) hx hr' hla
     have ih' := ih ⟨some (A.trans n.s x (la A rest)).1, A.qstep n.q x, la A rest⟩ hsucc hrest rfl
     have htail : implRun A (some (A.trans n.s x (la A rest)).1) rest = specRun A (A.qstep n.q x) rest :=
       ih'.1 rfl
@@ -249,5 +257,65 @@ theorem interior_map {α β γ : Type} (f : List β → List β → γ) (g : α 
     | cons l ls =>
       simp only [interior, List.map_cons, List.singleton_append]
       rw [ih (x :: l :: ls)]; rfl
+
+end Uniseg.Auto
+
+namespace Uniseg.Auto
+set_option linter.unusedSectionVars false
+variable {L R Q V : Type} [DecidableEq L] [DecidableEq R] [DecidableEq Q] [DecidableEq V] (A : Alg L R Q V)
+
+/-- the node a run is in after reading `pre` (given that `suf` follows) -/
+def nodeAfter (s : Option Nat) (q : Q) : List L → List L → Node R Q
+  | [], suf => ⟨s, q, la A suf⟩
+  | x :: pre, suf => nodeAfter (some (A.trans s x (la A (pre ++ suf))).1) (A.qstep q x) pre suf
+
+theorem nodeAfter_mem (c : Cert L R Q) (hv : c.Valid A) : ∀ (pre suf : List L) (n : Node R Q), n ∈ c.nodes →
+    (∀ x ∈ pre ++ suf, x ∈ c.letters) → n.rho = la A (pre ++ suf) →
+    nodeAfter A n.s n.q pre suf ∈ c.nodes := by
+  intro pre
+  induction pre with
+  | nil =>
+    intro suf n hn _ hrho
+    simp only [nodeAfter, List.nil_append] at hrho ⊢
+    cases n with
+    | mk s q rho => simp only at hrho; subst hrho; exact hn
+  | cons x pre ih =>
+    intro suf n hn hw hrho
+    have hx : x ∈ c.letters := hw x (by simp)
+    have hrest : ∀ y ∈ pre ++ suf, y ∈ c.letters := fun y hy => hw y (by simp only [List.cons_append]; exact List.mem_cons_of_mem _ hy)
+    have hr' := la_mem A c hv (pre ++ suf) hrest
+    have hla : A.laStep x (la A (pre ++ suf)) = n.rho := by rw [hrho]; rfl
+    obtain ⟨_, hsucc, _⟩ := step_closed A c hv n hn x (la A (pre ++ suf)) hx hr' hla
+    simp only [nodeAfter]
+    exact ih suf ⟨some (A.trans n.s x (la A (pre ++ suf))).1, A.qstep n.q x, la A (pre ++ suf)⟩ hsucc hrest rfl
+
+/-- **C11, suffix half (class level).** If, after reading `pre` from the start of a text, the verdict
+before the next letter `x` is a reported boundary, then the state after `x` is the state a fresh
+start on `x :: suf` reaches after `x` — so everything after `x` (states and verdicts) is what a
+fresh run on the suffix computes. -/
+theorem restart_at_boundary (c : Cert L R Q) (hv : c.Valid A) (pre : List L) (x : L) (suf : List L)
+    (hpre : pre ≠ []) (hw : ∀ y ∈ pre ++ x :: suf, y ∈ c.letters)
+    (hb : A.isB (A.trans (nodeAfter A none A.q0 pre (x :: suf)).s x (la A suf)).2 = true) :
+    (A.trans none x (la A suf)).1 = (A.trans (nodeAfter A none A.q0 pre (x :: suf)).s x (la A suf)).1 := by
+  have hi := hv.init
+  simp only [checkInit, List.all_eq_true, decide_eq_true_eq] at hi
+  have hn0 := hi (la A (pre ++ x :: suf)) (la_mem A c hv _ hw)
+  have hn := nodeAfter_mem A c hv pre (x :: suf) ⟨none, A.q0, la A (pre ++ x :: suf)⟩ hn0 hw rfl
+  have hx : x ∈ c.letters := hw x (by simp)
+  have hsuf : ∀ y ∈ suf, y ∈ c.letters := fun y hy => hw y (by simp [hy])
+  have hrho : (nodeAfter A none A.q0 pre (x :: suf)).rho = la A (x :: suf) := by
+    clear hn hn0 hb hi
+    generalize (none : Option Nat) = s
+    generalize A.q0 = q
+    induction pre generalizing s q with
+    | nil => exact absurd rfl hpre
+    | cons y pre ih =>
+      cases pre with
+      | nil => rfl
+      | cons z pre' =>
+        simp only [nodeAfter]
+        exact ih (by simp) (fun w hw' => hw w (by simp only [List.cons_append] at hw' ⊢; exact List.mem_cons_of_mem _ hw')) _ _
+  obtain ⟨_, _, h3⟩ := step_closed A c hv _ hn x (la A suf) hx (la_mem A c hv suf hsuf) (by rw [hrho]; rfl)
+  exact h3 hb
 
 end Uniseg.Auto
